@@ -639,4 +639,100 @@ theorem AtoI_ok {b : Buf} {p : Nat} {a : Bytes} (h : CAt b p a) (hfit : TextExt.
         · next heq => injection heq with h1 _; exact absurd h1 h43
         · simp [TextExt.leadingNumber]
 
+/-! ### AtoI on a string given by its parts: blanks, optional sign, digits, rest -/
+
+theorem dropWhile_append_of_all {p : UInt8 → Bool} : ∀ (xs ys : Bytes), (∀ c ∈ xs, p c = true) →
+    (∀ c, ys.head? = some c → p c = false) → (xs ++ ys).dropWhile p = ys
+  | [], ys, _, hy => by
+    cases ys with
+    | nil => rfl
+    | cons y t => simp [List.dropWhile_cons, hy y rfl]
+  | x :: xs, ys, hx, hy => by
+    have : p x = true := hx x (by simp)
+    simp only [List.cons_append, List.dropWhile_cons, this, if_true]
+    exact dropWhile_append_of_all xs ys (fun c hc => hx c (by simp [hc])) hy
+
+theorem takeWhile_append_of_all {p : UInt8 → Bool} : ∀ (xs ys : Bytes), (∀ c ∈ xs, p c = true) →
+    (∀ c, ys.head? = some c → p c = false) → (xs ++ ys).takeWhile p = xs
+  | [], ys, _, hy => by
+    cases ys with
+    | nil => rfl
+    | cons y t => simp [List.takeWhile_cons, hy y rfl]
+  | x :: xs, ys, hx, hy => by
+    have : p x = true := hx x (by simp)
+    simp only [List.cons_append, List.takeWhile_cons, this, if_true]
+    rw [takeWhile_append_of_all xs ys (fun c hc => hx c (by simp [hc])) hy]
+
+/-- `digitsVal` is the positional (Horner) value: appending a digit multiplies by ten and adds it -/
+theorem digitsVal_append (acc : Nat) (ds : Bytes) (d : UInt8) :
+    TextExt.digitsVal acc (ds ++ [d]) = TextExt.digitsVal acc ds * 10 + (d.toNat - 48) := by
+  simp [TextExt.digitsVal, List.foldl_append]
+
+theorem leadingNumber_parts (digits rest : Bytes) (hd : ∀ c ∈ digits, TextExt.isDigit c = true)
+    (hr : ∀ c, rest.head? = some c → TextExt.isDigit c = false) :
+    TextExt.leadingNumber (digits ++ rest) = TextExt.digitsVal 0 digits := by
+  simp only [TextExt.leadingNumber, takeWhile_append_of_all digits rest hd hr]
+
+/-- the textbook reading of `blanks sign digits rest`: the digits' value with the sign -/
+theorem atoi_parts (blanks sign digits rest : Bytes) (hb : ∀ c ∈ blanks, TextExt.isBlank c = true)
+    (hs : sign = [] ∨ sign = [43] ∨ sign = [45])
+    (hd : ∀ c ∈ digits, TextExt.isDigit c = true)
+    (hr : ∀ c, rest.head? = some c → TextExt.isDigit c = false)
+    (hfirst : sign = [] → ∀ c, (digits ++ rest).head? = some c → TextExt.isBlank c = false ∧ c ≠ 43 ∧ c ≠ 45) :
+    TextExt.atoi (blanks ++ sign ++ digits ++ rest) =
+        (if sign = [45] then - (TextExt.digitsVal 0 digits : Int) else (TextExt.digitsVal 0 digits : Int)) ∧
+      TextExt.atoiMagnitude (blanks ++ sign ++ digits ++ rest) = TextExt.digitsVal 0 digits := by
+  have hln := leadingNumber_parts digits rest hd hr
+  rcases hs with rfl | rfl | rfl
+  · -- no sign
+    have hdrop : (blanks ++ [] ++ digits ++ rest).dropWhile TextExt.isBlank = digits ++ rest := by
+      simp only [List.append_nil, List.append_assoc]
+      exact dropWhile_append_of_all blanks (digits ++ rest) hb (fun c hc => (hfirst rfl c hc).1)
+    simp only [TextExt.atoi, TextExt.atoiMagnitude, hdrop]
+    cases hdr : digits ++ rest with
+    | nil => simp [hdr] at hln ⊢; simp [TextExt.leadingNumber, TextExt.digitsVal] at hln ⊢; omega
+    | cons c t =>
+      have hc := hfirst rfl c (by rw [hdr]; rfl)
+      rw [hdr] at hln
+      have h45 : c ≠ 45 := hc.2.2
+      have h43 : c ≠ 43 := hc.2.1
+      constructor
+      · split
+        · next heq => injection heq with e _; exact absurd e h45
+        · next heq => injection heq with e _; exact absurd e h43
+        · simp [hln]
+      · split
+        · next heq => injection heq with e _; exact absurd e h45
+        · next heq => injection heq with e _; exact absurd e h43
+        · exact hln
+  · have hdrop : (blanks ++ [43] ++ digits ++ rest).dropWhile TextExt.isBlank = 43 :: (digits ++ rest) := by
+      have : blanks ++ [43] ++ digits ++ rest = blanks ++ (43 :: (digits ++ rest)) := by simp
+      rw [this]
+      exact dropWhile_append_of_all blanks _ hb (fun c hc => by
+        simp only [List.head?_cons, Option.some.injEq] at hc; subst hc; decide)
+    simp only [TextExt.atoi, TextExt.atoiMagnitude, hdrop, hln]
+    simp
+  · have hdrop : (blanks ++ [45] ++ digits ++ rest).dropWhile TextExt.isBlank = 45 :: (digits ++ rest) := by
+      have : blanks ++ [45] ++ digits ++ rest = blanks ++ (45 :: (digits ++ rest)) := by simp
+      rw [this]
+      exact dropWhile_append_of_all blanks _ hb (fun c hc => by
+        simp only [List.head?_cons, Option.some.injEq] at hc; subst hc; decide)
+    simp only [TextExt.atoi, TextExt.atoiMagnitude, hdrop, hln]
+    simp
+
+/-- **AtoI, general form**: for every C string `blanks ++ sign ++ digits ++ rest` (any number of
+    blanks 0x20/9…13, at most one sign, any number of digits, anything that does not start with
+    a digit — and, without a sign, nothing blank or sign-like right after the blanks) whose
+    digit value fits `int`, `AtoI` returns that value with the sign -/
+theorem AtoI_parts {b : Buf} {p : Nat} (blanks sign digits rest : Bytes)
+    (h : CAt b p (blanks ++ sign ++ digits ++ rest))
+    (hb : ∀ c ∈ blanks, TextExt.isBlank c = true) (hs : sign = [] ∨ sign = [43] ∨ sign = [45])
+    (hd : ∀ c ∈ digits, TextExt.isDigit c = true)
+    (hr : ∀ c, rest.head? = some c → TextExt.isDigit c = false)
+    (hfirst : sign = [] → ∀ c, (digits ++ rest).head? = some c → TextExt.isBlank c = false ∧ c ≠ 43 ∧ c ≠ 45)
+    (hfit : TextExt.digitsVal 0 digits ≤ 2147483647) :
+    AtoI b p = .ok (if sign = [45] then - (TextExt.digitsVal 0 digits : Int) else (TextExt.digitsVal 0 digits : Int)) := by
+  obtain ⟨h1, h2⟩ := atoi_parts blanks sign digits rest hb hs hd hr hfirst
+  rw [AtoI_ok h (by rw [h2]; exact hfit), h1]
+
 end CStr
